@@ -4,13 +4,17 @@
 // seeded heights), interleaved with PruneBlockFilesManual(h), prune locks that are created / moved / deleted (index-style
 // locks that lag the tip, locks at file boundaries, locks at heights 0..2), reorgs (depth 1-40) and invalidate+reconsider
 // cycles that disconnect blocks (DisconnectTip moves locks back), re-delivery of pruned blocks (files with wildly mixed
-// heights), forced/periodic flushes, PruneAndFlush() and clean restarts. Thorough tier, 1 run in 25: automatic pruning
-// (>= 533 MiB of 0.7-1 MB blocks against -prune targets of 550-620 MiB).
+// heights), forced/periodic flushes, PruneAndFlush() and clean restarts.
+// Thorough tier additionally: (a) 1 run in 25, automatic pruning: 533-850 MiB of 0.6-1 MB blocks against -prune targets of
+// 550-620 MiB, 64 KiB or 128 MiB block files, oracle after every block; (b) 1 run in 12, assumeutxo: the node loads regtest's
+// height-200 UTXO snapshot and everything happens on the snapshot chainstate while blocks 1..200 arrive for background
+// validation in order or out of order (the snapshot block itself first), completing or not.
 //
-// The model mirrors only WHICH BLOCK LIVES IN WHICH FILE (block index nFile/nDataPos read when the block is stored) and
-// where the prune locks are (own bookkeeping; BlockManager::m_prune_locks is private and never read) — not the pruning
-// algorithm. After every operation the blocks directory is listed and the BLOCK_HAVE_DATA / BLOCK_HAVE_UNDO flags of every
-// generated block are read; a file is "deleted" when blk/rev NNNNN.dat vanished or a block stored in it lost a flag.
+// The model mirrors only WHICH BLOCK LIVES IN WHICH FILE (block index nFile/nDataPos read when the block is stored), where
+// the prune locks are (own bookkeeping; BlockManager::m_prune_locks is private and never read) and how far background
+// validation has got (longest delivered prefix) — not the pruning algorithm. After every operation the blocks directory is
+// listed and the BLOCK_HAVE_DATA / BLOCK_HAVE_UNDO flags of every generated block are read; a file counts as deleted when
+// blk/rev NNNNN.dat vanished or a block stored in it lost a flag.
 #include "../core/sim.h"
 #include "../nodesim/chainsim.h"
 
@@ -282,7 +286,7 @@ struct DirList {
     std::set<int> blk, rev;
 };
 
-// wall-clock accounting for tuning only (VERIF_TIMING=1 prints it to stderr; never enters the trace)
+// wall-clock accounting for tuning only (VERIF_TIMING=<file> appends one line per run; never enters the trace)
 double g_t[6];
 struct Timer {
     int k;
@@ -596,7 +600,7 @@ struct PruneSim {
                           (unsigned long)max_deleted_size, (unsigned long)target);
         }
         // ---- bring the model up to date ----
-        size_t npruned = 0, nfiles_new = 0;
+        size_t npruned = 0;
         for (size_t i = 0; i < nb; ++i) {
             Loc& L = loc[i];
             const CBlockIndex* pi = pis[i];
@@ -608,7 +612,6 @@ struct PruneSim {
                 L.pos = pi->nDataPos;
                 L.data = true;
                 L.ever = true;
-                ++nfiles_new;
             }
             if (L.data && !L.undo && haveu) L.undo = true;
             if (L.ever && !L.data) ++npruned;
@@ -1098,30 +1101,39 @@ Engine MakeEngine()
     e.run = Run;
     e.describe = Describe;
     e.chunk = 1;
-    e.quick_runs = 400;
-    e.thorough_runs = 5000;
+    e.quick_runs = 320;
+    e.thorough_runs = 4000;
     e.quick_budget_s = 50;
     e.thorough_budget_s = 900;
     e.run_timeout_s = 300;
     e.rule = "each run = one on-disk regtest node in prune mode (-fastprune 64 KiB block files in 15/16 of the runs; prune target 1 / PRUNE_TARGET_MANUAL / 550-700 MiB) fed a seeded chain of 400-1100 blocks whose "
-             "sizes follow a per-run profile (250 B ... 140 KB, i.e. 1-200 blocks per file, optionally a huge block 2 that leaves only genesis+block 1 in blk00000), interleaved with 40-120 operations: "
+             "sizes follow a per-run profile (250 B ... 140 KB, i.e. 1-200 blocks per file; in 1/6 of the runs a huge block 2 leaves only genesis+block 1 in blk00000), interleaved with 40-120 operations: "
              "PruneBlockFilesManual(h) with h = any height / tip-288+-3 / tip / last height of a file +-1 / lowest lock-11+-3; UpdatePruneLock on 3 names (tip-lag, absolute, first height of a file -1..+12, "
              "INT_MAX, 0..2); DeletePruneLock; 'align' (mine until tip-288 is exactly the last height of a file, +-1); reorgs of depth 1-40 and invalidateblock+reconsiderblock of depth 1-40 (DisconnectTip "
-             "moves locks back); re-delivery of pruned blocks; flush modes; PruneAndFlush(); clean restarts. Thorough tier, 1 run in 25: automatic pruning - 533-700 MiB of 0.6-1 MB blocks, then 300-380 smaller "
-             "blocks, against -prune targets 550-620 MiB (64 KiB or 128 MiB files), oracle evaluated after every block. non-trivial = at least one block file holding generated blocks was deleted; "
+             "moves locks back; in half of the runs a lock is set at the tip, the chain rolled back 13-40 blocks and 300+ blocks mined on top); re-delivery of pruned blocks; flush modes; PruneAndFlush(); clean restarts. "
+             "Thorough tier: 1 run in 25 = automatic pruning (533-850 MiB of 0.6-1 MB blocks, then 300-380 smaller blocks, -prune targets 550-620 MiB, 64 KiB or 128 MiB files, in half of them a low lock holds "
+             "everything back until usage is 100-250 MiB over the target), oracle evaluated after every block; 1 run in 12 = assumeutxo (regtest height-200 snapshot loaded after 0-150 blocks of ordinary sync; blocks 1..200 "
+             "delivered for background validation in order / out of order / snapshot block first; validation completes in ~1/5 of them). non-trivial = at least one block file holding generated blocks was deleted; "
              "distinct = distinct (tip height, #files with data, #pruned blocks, lowest lock, lowest stored height) fingerprints of the model after an operation (first 64 per run).";
     e.real_components = {"Chainstate::FlushStateToDisk / GetPruneRange / DisconnectTip prune-lock handling / PruneAndFlush / PruneBlockFilesManual (validation.cpp)",
-                         "BlockManager::FindFilesToPrune, FindFilesToPruneManual, PruneOneBlockFile, UnlinkPrunedFiles, ScanAndUnlinkAlreadyPrunedFiles, UpdatePruneLock, DeletePruneLock, FindNextBlockPos, flat block/undo files (node/blockstorage.cpp)",
-                         "block index LevelDB, coins LevelDB, LoadChainstate/VerifyLoadedChainstate on restart", "ProcessNewBlock / ActivateBestChain / InvalidateBlock / ResetBlockFailureFlags"};
-    e.stub_components = {"peers (blocks handed to ProcessNewBlock)", "wall clock (SetMockTime)", "indexes (prune locks are set by the harness the way BaseIndex::SetBestBlockIndex does: UpdatePruneLock(name, {height}))", "disk = tmpfs scratch directory"};
-    e.assumptions = {"a prune lock with height_first = L obliges the node to keep every block (any branch) at height >= L; after blocks above a fork point F < L were disconnected the lock obliges from F (DisconnectTip contract); locks vanish at restart",
-                     "the 288-block and lock rules are evaluated over every generated block stored in the deleted file (active chain or stale branch), against the highest tip height and the lock positions at the start of the operation in which the file vanished",
-                     "usage = BlockManager::CalculateCurrentUsage(); bounds on how much automatic pruning removes allow the documented 17 MiB allocation reserve and 11 blocks of lock buffer in the permissive direction only",
-                     "assumeutxo clause (blocks not yet validated by background validation) is not exercised: limitation"};
+                         "BlockManager::FindFilesToPrune, FindFilesToPruneManual, PruneOneBlockFile, UnlinkPrunedFiles, ScanAndUnlinkAlreadyPrunedFiles, UpdatePruneLock, DeletePruneLock, FindNextBlockPos, BlockfileTypeForHeight, flat block/undo files (node/blockstorage.cpp)",
+                         "block index LevelDB, coins LevelDB, LoadChainstate/VerifyLoadedChainstate on restart", "ProcessNewBlock / ActivateBestChain / InvalidateBlock / ResetBlockFailureFlags",
+                         "ChainstateManager::ActivateSnapshot, snapshot + historical chainstates, MaybeValidateSnapshot (thorough tier)"};
+    e.stub_components = {"peers (blocks handed to ProcessNewBlock)", "wall clock (SetMockTime)", "indexes (prune locks are set by the harness the way BaseIndex::SetBestBlockIndex does: UpdatePruneLock(name, {height}))", "disk = tmpfs scratch directory",
+                         "UTXO snapshot file written by the harness (metadata + one coin per coinbase of the 200-block chain)"};
+    e.assumptions = {"a prune lock with height_first = L obliges the node to keep every block (any branch) at height >= L (PruneLockInfo: 'height of earliest block that should be kept'); after blocks above a fork point F < L were disconnected the lock obliges from F (DisconnectTip contract); locks vanish at restart; an INT_MAX lock obliges nothing",
+                     "the 288-block, lock and background-validation rules are evaluated over every generated block stored in the deleted file (active chain or stale branch), against the highest tip height during, the lock positions at the start of, and the background height at the end of the operation in which the file vanished",
+                     "background validation has reached height k = every block 1..k was handed to the node (cross-checked against the historical chainstate's tip)",
+                     "usage = BlockManager::CalculateCurrentUsage(); the two bounds on how MUCH automatic pruning removes allow the documented 17 MiB allocation reserve and 11 blocks of lock buffer in the permissive direction only; 'usage back under the target' is checked right after PruneAndFlush()",
+                     "violations whose trigger is a lock at height 0/1 or a chain shorter than 288 blocks carry their own class names (pruned-block-at-or-above-prune-lock-of-height-0-or-1, pruned-block-within-288-of-tip-of-chain-shorter-than-288)",
+                     "automatic pruning is only reachable above 550 MiB of block data (thorough tier); 1-3.9 MB blocks of the design are 0.6-1 MB here (coinbase padding is non-witness data, weight limit)"};
     e.expected_probes = {"manual_prune", "file_deleted", "manual_height_inside_keep_window", "manual_height_at_keep_boundary", "manual_height_at_or_above_lock", "aligned_tip_minus_288_with_file_end", "file_straddling_tip_minus_288_kept",
                          "file_ending_one_above_tip_minus_288_kept", "file_kept_only_because_of_lock", "lock_moved_back_by_disconnect", "lock_moved_back_more_than_11", "reorg", "reorg_deeper_than_6", "invalidate_reconsider",
                          "clean_restart_after_prune", "redelivered_pruned_block", "pruned_block_stored_again", "file_with_mixed_heights", "file_with_single_block", "lock_set_at_height_0_to_2", "lock_set_below_keep_window", "genesis_pruned",
                          "prune_and_flush", "readback_all_flagged_blocks"};
+    // (thorough-tier only probes, not listed because the quick tier cannot reach them: auto_prune_deleted, auto_prune_usage_under_target,
+    //  auto_prune_no_eligible_file_remains, big_blocks, snapshot_activated, background_block_out_of_order,
+    //  snapshot_block_downloaded_before_its_ancestors, background_validation_completed)
     return e;
 }
 Engine g_engine = MakeEngine();
